@@ -22,6 +22,8 @@ def case_line(i, c):
     prm = []
     if t in ("Pow", "NumberofConst"):
         prm = [c["k"]]
+    elif t in TRANSC_PRM:
+        prm = [TRANSC_PRM[t][c["k"]]]
     elif t == "PL":
         for x, y in zip(c["px"], c["py"]):
             prm += [x, y]
@@ -32,6 +34,11 @@ def case_line(i, c):
             prm += [cf / cs if cs != 1 else cf, a - 1, b - 1]
     parts += [str(len(prm))] + [repr(float(p)) if isinstance(p, float) else str(p) for p in prm]
     return " ".join(parts)
+
+
+# parameter menus of the functions decided on measured samples (index = GenBounds k)
+TRANSC_PRM = {"ExpA": [2.0, 0.5, 10.0], "LogA": [2.0, 0.5, 10.0], "PowR": [0.5, 1.5, -0.5, 2.5]}
+TRANSC = ("Exp", "ExpA", "Log", "LogA", "PowR", "Sin", "Cos", "Tan", "Asin", "Acos", "Atan", "Sinh", "Cosh", "Tanh", "Asinh", "Acosh", "Atanh")
 
 
 def boundQ(v, lower):
@@ -83,10 +90,12 @@ def run(tier):
             continue
         rr = {"kind": r["kind"], "valQ": 0, "var": 0, "lbQ": -INF, "ubQ": INF, "int": False}
         if r["kind"] == "const":
-            v = r["val"]
+            v = r.get("val", r.get("lb"))
             rr["valQ"] = int(round(v * Q)) if not isinstance(v, str) and abs(v * Q - round(v * Q)) < 1e-6 and abs(v) < 4e5 else 399999999
         elif r["kind"] in ("var", "alias"):
             rr.update(var=r["var"], lbQ=boundQ(r["lb"], True), ubQ=boundQ(r["ub"], False), int=r["int"])
+        if c["type"] in TRANSC:
+            rr["samples"] = [{"lo": s_["lo"], "hi": s_["hi"], "isint": s_["isint"], "defd": s_["defd"]} for s_ in r.get("samples", [])]
         cc = dict(c, D=2 if not (c["type"] == "Pow" and abs(c["k"]) > 3) else 1)
         recs.append({"e": "Case", "id": i, "c": cc, "r": rr})
     vres = validate_parallel("TraceBounds", "TraceBounds.cfg", recs, sd, "c06")
@@ -118,7 +127,7 @@ def run(tier):
         "explanation": "TLC generates (functional type x argument-domain patterns incl. half-infinite/infinite/fixed/negative/zero-crossing/int-cont mixes x parameters); the real converter's AssignResult2Args answers are validated by TLC: every value of the function on the argument grid (half-integers for continuous arguments) lies within the assigned bounds, integrality only if integer-valued, constants/aliases only if equal",
         "violations_new": nnew,
     }, time.time() - t0, violations=nnew,
-        assumptions=["exp/log/trig/fractional powers are not evaluated (TLC has no reals): excluded, see DESIGN.md section 6",
+        assumptions=["exp/log/trig/fractional powers: decided on margins measured with libm at sample points of the argument domain (ends, eighths, a fixed menu incl. multiples of pi/2), unit 1e-6 * max(1,|f|); a sampled observation, not a proof over the reals",
                      "bounds compared with tolerance 1e-7; infinite sides sampled at {+-1,+-2,+-3,+-7}"])
     return rcode
 
